@@ -59,11 +59,16 @@ prop("C05", ["prims.go", "c01.go"],
 
 # ------------------------------------------------------------------------------------------------ C02
 prop("C02", ["prims.go", "c02a.go"],
-     [run("core", "harnessC02a", ["common", "disjoint"], native="version", quick={"witness": 16, "bound": "host and plugin each with 2 versioned sets, versions arbitrary distinct ints; every map iteration order; PLUGIN_PROTOCOL_VERSIONS built as Start builds it"})],
-     [STR, "os.Getenv reads the modelled process environment"], ["os.Getenv"],
-     "more than 2 versions per side; legacy ProtocolVersion folding; damaged version lists",
-     text="Bounded symbolic model checking of the real protocolVersion (with the real sort.Sort/sort.Reverse SSA) and the real checkProtoVersion over arbitrary version numbers on both sides and every map iteration order, against a reference 'highest common version' computed in the harness.",
-     note="Bound: 2 versioned sets per side (quick). " + ENGINE)
+     [run("core", "harnessC02a", ["common", "disjoint"], native="version", quick={"witness": 16, "bound": "host and plugin each with 2 versioned sets, versions arbitrary distinct ints; every map iteration order on both sides; PLUGIN_PROTOCOL_VERSIONS built as Start builds it"}),
+      run("composed", "harnessC02b", ["common", "disjoint"], files=["prims.go", "m_print.go", "c02b.go"],
+          quick={"bound": "host's real Start composed with the plugin's real Serve in one run: 2 x 2 versioned sets, arbitrary distinct versions, every map order; the version list travels through the real environment construction, the real protocolVersion, the printed line and the real parser"}),
+      run("general", "harnessC02n", ["common", "fallback-lowest", "host-legacy", "plugin-legacy", "no-list", "damaged-list", "host-refuses"], files=["prims.go", "c02a.go", "c02c.go"], no_map_perm=True,
+          quick={"skip": True},
+          thorough={"params": {"n": 2}, "max_wall_s": 1500, "bound": "2 versioned sets per side plus optionally the legacy ProtocolVersion+Plugins pair on either side (so up to 3 x 3 versions, including version 0 and a legacy pair colliding with a versioned key), gRPC server factory configured or not, each plugin set net/rpc or gRPC, version list exact / missing / one entry damaged; insertion-order map iteration in this run"})],
+     [STR, "os.Getenv reads the modelled process environment", "composed run: process, listener and file models of the C16 harness"], ["os.Getenv", "net.Listen", "os.Pipe", "bufio"],
+     "more than 3 versions per side; map-order permutations in the general run (they are explored in the core and composed runs)",
+     text="Bounded symbolic model checking of the real protocolVersion (with the real sort.Sort/sort.Reverse SSA) and the real checkProtoVersion over arbitrary version numbers on both sides and every map iteration order, against a reference 'highest common version' computed in the harness; the composed run sends the list through the host's real Start and the plugin's real Serve; the general run (thorough) adds the legacy pair on either side, the gRPC server factory and set kinds (wire protocol of the chosen set), a missing and a damaged list.",
+     note="Bound: 2 versioned sets per side (+ legacy pair in the thorough run). " + ENGINE)
 
 # ------------------------------------------------------------------------------------------------ C13
 prop("C13", ["prims.go", "c13.go"],
